@@ -3,12 +3,15 @@ import gc, itertools, random
 from .. import core, hist, world as W, sysgen, ref
 from .c01 import random_history, fix_disagreements
 
-MODULES = ['DsdVerif.Props.C15']
-GEN_FILES = []
+MODULES = ['DsdVerif.Props.C15', 'DsdVerif.Props.PyReaderFns']
+GEN_FILES = ['PyReaderFns']
 THEOREM_NAMES = ['withClass_frame', 'mkDom_frame', 'mkCplx_frame', 'failed_request_no_trace', 'refused_adds_no_edges']
 READER_THEOREMS = ['readerWorld_fresh', 'readLine_frame', 'slotStrands_needed', 'readDoc_frame', 'reader_objects_in_slot_class',
                    'reader_objects_in_slot_class_fresh', 'failed_read_no_trace', 'failed_read_from_nothing']
-THEOREMS = ['Dsd.C05.' + t for t in THEOREM_NAMES] + ['Dsd.C15.' + t for t in READER_THEOREMS]
+THEOREMS = ['Dsd.C05.' + t for t in THEOREM_NAMES] + ['Dsd.C15.' + t for t in READER_THEOREMS] + ['Dsd.PyReaderFns.' + t for t in [
+    # set_io_objects / clear_io_objects as written in the source (translator/pyreaderfn.py -> Gen/PyReaderFns.lean; the five module globals are the state)
+    'py_set_io_objects_spec', 'py_set_io_objects_independent', 'py_set_io_objects_honours', 'py_set_io_objects_default', 'py_clear_io_objects_spec',
+    'py_set_twice', 'py_set_io_objects_slots', 'py_clear_io_objects_slots']]
 ASSUMPTIONS = [
     'every class of the metaclass has its own pair of weak dictionaries (Singleton.__init__); the model keeps one registry per class '
     'index (Model/World.lean) and the inherited ID counter semantics (own attribute after the first increment)',
@@ -30,6 +33,7 @@ MANIFEST = {
             'only in that class\\u2019s registry, and user constructors raising before or after delegating leave the name and canonical '
             'form free (after the exception is released).',
     'note': 'The "leaves no trace" clause depends on CPython releasing the half-built object (reference counting): modelled, not verified.',
+    'source_derived': "The reader's slot functions set_io_objects / clear_io_objects are transcribed from the working tree (translator/pyreaderfn.py -> Gen/PyReaderFns.lean; the five module globals are the state): PyReaderFns.py_set_io_objects_spec (each slot is the argument, or the base class where the argument is None), py_set_io_objects_independent (the outcome does not depend on the previous configuration: an 'already configured' early exit or a kept slot breaks the proof), py_clear_io_objects_spec, py_set_io_objects_slots (relation to the Slots of the reader model); stream io_objects.source-derived.",
     'technique': 'Lean 4 frame theorems over per-class registries and the reader model + history correspondence; configuration enumeration and fault injection on the real code',
 }
 
@@ -373,6 +377,10 @@ def run(res, proof):
             fix_disagreements(res, lines, impl, model)
     except core.DriverBroken as e:
         proof.problem('driver', str(e))
+    # set_io_objects / clear_io_objects as translated from the working tree against the real module globals
+    import random as _r
+    from .pyreaderfn_stream import stream_io_objects
+    stream_io_objects(res, proof, _r.Random(res.seed * 5915587 + 1415), res.tier == 'quick')
     res.sample(lines[:10])
 
 
